@@ -29,6 +29,7 @@ type sqlFaultCtl struct {
 	count     int
 	failAt    int // 1-based; 0 = never
 	Fired     int
+	RowFired  int // of Fired: failures of a row step (rows.Next), which surface only in rows.Err()
 	suspended int // >0: statements issued by the harness itself (not counted, never failed)
 }
 
@@ -108,7 +109,27 @@ func (c *simConn) QueryContext(ctx context.Context, q string, args []driver.Name
 	if err := SQLFault.step(); err != nil {
 		return nil, err
 	}
-	return c.inner.QueryContext(ctx, q, args)
+	rows, err := c.inner.QueryContext(ctx, q, args)
+	if err != nil {
+		return nil, err
+	}
+	return &simRows{inner: rows}, nil
+}
+
+// simRows: go-sqlite3 steps a SELECT only inside rows.Next, so a locked database or a read I/O error
+// during a scan shows up there (and then only in rows.Err()). Each Next counts as one fault point.
+type simRows struct{ inner driver.Rows }
+
+func (r *simRows) Columns() []string { return r.inner.Columns() }
+func (r *simRows) Close() error      { return r.inner.Close() }
+func (r *simRows) Next(dest []driver.Value) error {
+	if err := SQLFault.step(); err != nil {
+		SQLFault.mu.Lock()
+		SQLFault.RowFired++
+		SQLFault.mu.Unlock()
+		return err
+	}
+	return r.inner.Next(dest)
 }
 func (c *simConn) PrepareContext(ctx context.Context, q string) (driver.Stmt, error) {
 	return c.inner.PrepareContext(ctx, q)
